@@ -651,3 +651,93 @@ Proof.
     + f_equal. f_equal. symmetry. erewrite kabs_put_header; eauto.
     + left. eapply sgood_put_node; eauto.
 Qed.
+
+(* ---------- canonical position of a key ---------- *)
+Lemma levelfact_canon : forall s C0 k lo hi l' x, C0 = lo ++ hi ->
+  (forall y, In y lo -> key_ltb (nkey s y) k = true) -> (forall y, In y hi -> key_ltb (nkey s y) k = false) ->
+  LevelFact s C0 k l' x -> x = last (HEADER :: chain s lo l') HEADER.
+Proof.
+  intros s C0 k lo hi l' x E LO HI [pre [T [E2 [PRE [X GE]]]]]. subst x. f_equal. f_equal.
+  rewrite E in E2. apply app_eq_app in E2. destruct E2 as [z [[Z1 Z2]|[Z1 Z2]]].
+  - (* lo = pre ++ z, T = z ++ hi *)
+    subst lo. rewrite chain_app. replace (chain s z l') with (@nil nat). rewrite app_nil_r. auto.
+    symmetry. destruct (chain s z l') eqn:C; auto. exfalso.
+    assert (In n (chain s z l')) by (rewrite C; left; auto).
+    assert (In n z) by (unfold chain in H; apply filter_In in H; apply H).
+    assert (key_ltb (nkey s n) k = true) by (apply LO; apply in_or_app; auto).
+    assert (key_ltb (nkey s n) k = false). { apply GE. rewrite Z2, chain_app. apply in_or_app. auto. }
+    congruence.
+  - (* pre = lo ++ z, hi = z ++ T *)
+    destruct z. rewrite app_nil_r in Z1. subst; auto. exfalso.
+    assert (key_ltb (nkey s n) k = true) by (apply PRE; rewrite Z1; apply in_or_app; right; left; auto).
+    assert (key_ltb (nkey s n) k = false) by (apply HI; rewrite Z2; left; auto). congruence.
+Qed.
+
+(* ---------- paths: a linked chain split at a node ---------- *)
+Fixpoint Path (s : kstate) (l : nat) (x : nat) (rest : list nat) : Prop :=
+  match rest with
+  | [] => True
+  | y :: t => fwd s x l = Ok (Some y) /\ Path s l y t
+  end.
+
+Lemma last_cons' : forall {A} (X : list A) a d, last (a :: X) d = last X a.
+Proof. induction X; simpl; intros; auto. destruct X; auto. simpl in IHX. apply IHX. Qed.
+
+Lemma last_in : forall {A} (X : list A) a, In (last X a) (a :: X).
+Proof. induction X; intros. left; auto. rewrite last_cons'. right. apply IHX. Qed.
+
+Lemma linked_split : forall s l X h Y, Linked s l h (X ++ Y) <-> Path s l h X /\ Linked s l (last X h) Y.
+Proof.
+  induction X; intros.
+  - simpl. tauto.
+  - rewrite last_cons'. cbn [app Linked Path]. rewrite IHX. tauto.
+Qed.
+
+Lemma path_ext : forall s s' l X h, NoDup (h :: X) ->
+  (forall x, In x (h :: X) -> x <> last X h -> fwd s' x l = fwd s x l) -> Path s l h X -> Path s' l h X.
+Proof.
+  induction X; intros h ND FR P. exact I.
+  cbn [Path] in *. destruct P as [P1 P2]. inversion ND; subst. rewrite last_cons' in FR. split.
+  - rewrite FR; auto. left; auto. intro Q. apply H1. rewrite Q. apply last_in.
+  - apply IHX; auto. intros x Hx Nx. apply FR; auto. right; auto.
+Qed.
+
+(* inserting [new] after the last node of X at level l *)
+Lemma linked_insert : forall s s' l X h Y new, NoDup (h :: X ++ Y) ->
+  Linked s l h (X ++ Y) ->
+  (forall x, In x (h :: X ++ Y) -> x <> last X h -> fwd s' x l = fwd s x l) ->
+  fwd s' (last X h) l = Ok (Some new) -> fwd s' new l = Ok (hd_error Y) ->
+  Linked s' l h (X ++ new :: Y).
+Proof.
+  intros s s' l X h Y new ND L FR P N. apply linked_split in L. destruct L as [L1 L2]. apply linked_split. split.
+  - eapply path_ext. 3: exact L1.
+    + rewrite app_comm_cons in ND. eapply nodup_app_l; eauto.
+    + intros x Hx Nx. apply FR; auto. rewrite app_comm_cons. apply in_or_app; auto.
+  - cbn [Linked]. split; auto. destruct Y; cbn [Linked hd_error] in *; auto. destruct L2 as [L2 L3]. split; auto.
+    assert (NL : ~ In (last X h) (n :: Y)).
+    { intro Q. rewrite app_comm_cons in ND. eapply nodup_app_disj; eauto. apply last_in. }
+    eapply linked_ext. 2: exact L3. intros y Hy. apply FR.
+    + rewrite app_comm_cons. apply in_or_app. right. destruct Hy; subst; [left|right]; auto.
+    + intro Q. apply NL. rewrite <- Q. destruct Hy; subst; [left|right]; auto.
+Qed.
+
+(* removing the node y that follows the last node of X at level l *)
+Lemma linked_remove : forall s s' l X h y Y, NoDup (h :: X ++ y :: Y) ->
+  Linked s l h (X ++ y :: Y) ->
+  (forall x, In x (h :: X ++ Y) -> x <> last X h -> fwd s' x l = fwd s x l) ->
+  fwd s' (last X h) l = fwd s y l ->
+  Linked s' l h (X ++ Y).
+Proof.
+  intros s s' l X h y Y ND L FR P. apply linked_split in L. destruct L as [L1 L2]. apply linked_split. split.
+  - eapply path_ext. 3: exact L1.
+    + rewrite app_comm_cons in ND. eapply nodup_app_l; eauto.
+    + intros x Hx Nx. apply FR; auto. rewrite app_comm_cons. apply in_or_app; auto.
+  - cbn [Linked] in L2. destruct L2 as [L2 L3].
+    assert (NL : ~ In (last X h) Y).
+    { intro Q. rewrite app_comm_cons in ND. eapply nodup_app_disj; eauto. apply last_in. right; auto. }
+    destruct Y; cbn [Linked] in *.
+    + rewrite P. auto.
+    + destruct L3 as [L3 L4]. split. rewrite P. auto. eapply linked_ext. 2: exact L4. intros z Hz. apply FR.
+      * rewrite app_comm_cons. apply in_or_app. right. destruct Hz; subst; [left|right]; auto.
+      * intro Q. apply NL. rewrite <- Q. destruct Hz; subst; [left|right]; auto.
+Qed.
